@@ -598,7 +598,7 @@ func seekRun(c *driver.Ctx, depth int, chunked bool) (func(), func(*vs.Result) *
 
 // ---- (c) single-field corruption of the responses of descriptor/body-returning reads
 
-var corruptKinds = []string{"digest-wrong", "digest-malformed", "length+1", "length-1", "length-absent", "ctype-other", "ctype-garbage"}
+var corruptKinds = []string{"digest-wrong", "digest-wrong-sha512", "digest-malformed", "length+1", "length-1", "length-absent", "ctype-other", "ctype-garbage"}
 
 func corruptJobs(d *DAG) []driver.Job {
 	var out []driver.Job
@@ -670,7 +670,7 @@ func corruptOne(c *driver.Ctx, d *DAG, p Profile, rd string, at int, kind string
 	byDesc := rd == "fetch-blob" || rd == "fetch-manifest"
 	contradicts := false
 	switch kind {
-	case "digest-wrong", "digest-malformed":
+	case "digest-wrong", "digest-wrong-sha512", "digest-malformed":
 		contradicts = true
 	case "length+1", "length-1":
 		contradicts = byDesc
